@@ -28,6 +28,7 @@ import (
 	"verif/fwd"
 	"verif/media"
 	"verif/seqx"
+	"verif/vrt"
 	"verif/vtime"
 )
 
@@ -410,7 +411,7 @@ func main() {
 	t0 := time.Now()
 	o := core.ParseFlags(90, 1500)
 	res := &core.Result{Property: "C04", Tier: o.Tier,
-		Technique: "explicit-state BFS over packet/feedback/request interleavings on the real rtpDownTrack (Write, rtcpDownListener, adjustLayer, updateRate, replaceTracks) with before/after monitors"}
+		Technique: "explicit-state BFS over packet/feedback/request interleavings on the real rtpDownTrack (Write, rtcpDownListener, adjustLayer, updateRate, replaceTracks) with before/after monitors; preemption-bounded schedule enumeration of Write, adjustLayer and replaceTracks as concurrent threads with every store to the layer word attributed to its cause"}
 	if o.Replay != "" {
 		replay(o.Replay)
 		return
@@ -452,6 +453,9 @@ func main() {
 			res.AddSub(*a)
 		}
 	}
+	if core.Want("conc") {
+		runConcurrent(res, o.Shard, o.Shards)
+	}
 	core.Finish(res, t0)
 }
 
@@ -463,12 +467,30 @@ func replay(path string) {
 	}
 	var a struct {
 		Replay struct {
-			Config string `json:"config"`
-			Ops    []op   `json:"ops"`
+			Config  string `json:"config"`
+			Ops     []op   `json:"ops"`
+			Program string `json:"program"`
+			Choices []int  `json:"choices"`
 		} `json:"replay"`
 	}
 	if err := json.Unmarshal(data, &a); err != nil {
 		fmt.Println(err)
+		os.Exit(2)
+	}
+	if a.Replay.Program != "" {
+		fwd.Init()
+		for _, p := range concPrograms() {
+			if p.Name == a.Replay.Program {
+				_, out, v := vrt.ReplayChoices(p, a.Replay.Choices)
+				if v != nil {
+					fmt.Printf("VIOLATION property=C04 replay=%s\n  signature: %s\n  %s\n", path, v.Signature, v.What)
+					os.Exit(1)
+				}
+				fmt.Println("replay: no violation; outcome", out)
+				return
+			}
+		}
+		fmt.Println("unknown program")
 		os.Exit(2)
 	}
 	parts := strings.SplitN(a.Replay.Config, "/start", 2)
